@@ -184,7 +184,7 @@ def run_job(job, rec):
                     rec.count("gradient_checks")
                     gs = max(np.abs(gn).max(), 1e-300)
                     noise = 1e-9 * max(1.0, abs(f0)) / h
-                    rec.check(grad.shape == gn.shape and bool(np.all(np.abs(grad - gn) <= 1e-5 * gs + noise)), nm + "-gradient",
+                    rec.check(grad.shape == gn.shape and bool(np.all(np.abs(grad - np.asarray(gn)) <= 1e-5 * gs + noise + 2 * gn.spread)), nm + "-gradient",
                               lambda: f"{nm} ({info['mean']} mean, d={d}, z={z:.3f}): opt_func_gradient {grad} != numerical gradient of opt_func {gn}", rec.context)
 
         # integer-typed query point: same answers as the same values as floats
